@@ -27,6 +27,7 @@ META = {
 }
 
 RATES = ['1.1', '1.2', '1.3']
+HKD_RATES = ['8.1', '8.2', None]
 MONEY_OPS = [('reg', 0), ('reg', 1), ('reg', 2), ('unreg', 0), ('unreg', 1), ('unreg', 2),
              ('enter', 0), ('enter', 1), ('enter', 2), ('leave', None), ('leave-exc', None), ('convert', None)]
 
@@ -72,10 +73,13 @@ def _setup_money():
     from decimalfp import Decimal
     from quantity.money import Money, MoneyConverter
     eur, usd = Money.register_currency('EUR'), Money.register_currency('USD')
+    hkd = Money.register_currency('HKD')
     convs = []
-    for r in RATES:
+    for i, r in enumerate(RATES):
         c = MoneyConverter(eur)
         c.update(None, [(usd, Decimal(r), 1)])
+        if i != 2:
+            c.update(None, [(hkd, Decimal(HKD_RATES[i]), 1)])      # converter 2 has no HKD rate
         convs.append(c)
     return Money, eur, usd, convs
 
@@ -100,6 +104,16 @@ def _check_state(E, Money, convs, ref, a, eur, usd, tag):
     q = Fraction(1, 100)
     E.check(r.unit is usd and E.is_rounding(get_dflt_rounding_mode(), r.amount / q, m.amount * Fraction(RATES[ref[-1]]) / q),
             'conversion-uses-top-converter', key='money:convert-' + tag, info=[ref])
+    # a pair the top converter may not know: only the most recent converter decides (no fall-through)
+    from quantity.money import Money as _M
+    hkd = _M.register_currency('HKD')
+    top_rate = HKD_RATES[ref[-1]]
+    if top_rate is None:
+        C.expect_raises(E, lambda: m.convert(hkd), UnitConversionError, 'top-converter-without-rate-raises', [list(ref)])
+    else:
+        rh = m.convert(hkd)
+        E.check(rh.unit is hkd and E.is_rounding(get_dflt_rounding_mode(), rh.amount / q, m.amount * Fraction(top_rate) / q),
+                'conversion-of-second-pair-uses-top-converter', key='money:convert-hkd-' + tag, info=[ref])
 
 
 def _apply_money_op(E, Money, convs, ref, op, arg):
